@@ -105,18 +105,7 @@ def run(res, tier, seed, replay, clauses, spanner=False, ks='1,2,3', algos='appr
                         drop += 1
             res.cov['spanners_with_cycles'] = cyc
             res.cov['spanners_with_dropped_edges'] = drop
-        with open(trace) as f:
-            buf = [json.loads(next(f)) for _ in range(min(300, sum(ev.values())))]
-        best = []
-        cur = []
-        for e in buf:
-            if e['e'] in ('Call', 'Spanner'):
-                if len(cur) > len(best):
-                    best = cur
-                cur = [e]
-            else:
-                cur.append(e)
-        res.sample(best[:8])
+        res.sample(vlib.sample_call(trace, start_events=('Call', 'Spanner'), min_len=(1 if spanner else 4)) if not spanner else [e for e in vlib.sample_call(trace, start_events=('Spanner',), min_len=1, max_lines=400)][-1:])
         return inputs, trace
     finally:
         shutil.rmtree(wd, ignore_errors=True)
